@@ -1161,8 +1161,64 @@ func checkJoinBeforeRelease(c *Ctx, rule string) {
 					if fn.Signature.Recv() != nil {
 						pref = fn.Signature.Recv().Type()
 					}
-					// latches closed at the time of the wait
+					// latches closed at the time of the wait: by this function before the join, and - when the stop
+					// sequence is split into helpers - by every caller before it calls this function
 					before := map[*types.Var]bool{}
+					var callerBefore func(f *ssa.Function, depth int) map[*types.Var]bool
+					callerBefore = func(f *ssa.Function, depth int) map[*types.Var]bool {
+						edges := p.callersOf(f)
+						if depth > 2 || len(edges) == 0 || f.Parent() != nil {
+							return nil
+						}
+						var inter map[*types.Var]bool
+						for _, ed := range edges {
+							cf := ed.Caller.Func
+							if p.isTestFn(cf) {
+								continue
+							}
+							if _, isCall := ed.Site.(*ssa.Call); !isCall {
+								return nil
+							}
+							m := map[*types.Var]bool{}
+							eachInstr(cf, func(_ *ssa.BasicBlock, _ int, x ssa.Instruction) {
+								if x == ed.Site || !instrDominates(x, ed.Site) {
+									return
+								}
+								if isBuiltin(x, "close") {
+									if fld, _ := chanFieldOf(callOf(x).Args[0]); fld != nil {
+										m[fld] = true
+									}
+								}
+								if ci, ok := x.(ssa.CallInstruction); ok {
+									if _, isGo := x.(*ssa.Go); isGo {
+										return
+									}
+									if _, isB := ci.Common().Value.(*ssa.Builtin); isB {
+										return
+									}
+									for _, h := range p.callees(ci) {
+										closedBy(h, m, 0)
+									}
+								}
+							})
+							for k := range callerBefore(cf, depth+1) {
+								m[k] = true
+							}
+							if inter == nil {
+								inter = m
+							} else {
+								for k := range inter {
+									if !m[k] {
+										delete(inter, k)
+									}
+								}
+							}
+						}
+						return inter
+					}
+					for k := range callerBefore(fn, 0) {
+						before[k] = true
+					}
 					eachInstr(fn, func(_ *ssa.BasicBlock, _ int, x ssa.Instruction) {
 						if x == in || !instrDominates(x, in) {
 							return
@@ -1394,8 +1450,45 @@ func checkClientTableDiscipline(c *Ctx, rule string) {
 				c.Undecided(rule, site, in.Pos(), "cannot find where the snapshot is read")
 				return
 			}
-			held := le.heldAt(origin)
-			c.Check(held[mu] >= lockRead, rule, site, origin.Pos(), "the snapshot is read while "+mu.Name()+" is held", "the connections that Stop stops are taken from a snapshot of the table read without "+mu.Name()+": a connection that is being established passes its quit test, and is published under the mutex right after the snapshot - it is in no snapshot, nobody stops it, its goroutines and its socket outlive Stop and the request that triggered it is never answered")
+			// the read itself: the call that loads the table (an atomic load inside), possibly returned through
+			// helpers that take the lock themselves
+			var underLock func(v ssa.Value, depth int) bool
+			underLock = func(v ssa.Value, depth int) bool {
+				v = stripConv(resolveCell(stripConv(v)))
+				call, ok := v.(*ssa.Call)
+				if !ok || depth > 3 {
+					if instr, ok := v.(ssa.Instruction); ok {
+						return le.heldAt(instr)[mu] >= lockRead
+					}
+					return false
+				}
+				if le.heldAt(call)[mu] >= lockRead {
+					return true
+				}
+				g := calleeFn(call.Common())
+				if g == nil || !isModFn(g) || g.Blocks == nil {
+					return false
+				}
+				okAll, nret := true, 0
+				eachInstr(g, func(_ *ssa.BasicBlock, _ int, x ssa.Instruction) {
+					ret, isRet := x.(*ssa.Return)
+					if !isRet || len(ret.Results) == 0 {
+						return
+					}
+					for _, r := range returnedValues(ret) {
+						if !isTableMap(r.Type()) {
+							continue
+						}
+						nret++
+						if !underLock(r, depth+1) {
+							okAll = false
+						}
+					}
+				})
+				return okAll && nret > 0
+			}
+			ov, _ := origin.(ssa.Value)
+			c.Check(ov != nil && underLock(ov, 0), rule, site, origin.Pos(), "the snapshot is read while "+mu.Name()+" is held", "the connections that Stop stops are taken from a snapshot of the table read without "+mu.Name()+": a connection that is being established passes its quit test, and is published under the mutex right after the snapshot - it is in no snapshot, nobody stops it, its goroutines and its socket outlive Stop and the request that triggered it is never answered")
 		})
 	}
 	if nsweep == 0 {
